@@ -24,7 +24,7 @@ NAMES = ["en", "fr", "pt-BR"]
 EXTS = {"json": ["json"], "json5": ["json5"], "yaml": ["yaml", "yml"]}
 ALL_EXTS = ["json", "json5", "yaml", "yml"]
 
-BEFORE = ["", "[dependencies]\nserde = \"1\"\n\n", "[package.metadata.other]\ndefault = \"zz\"\nlocales = [\"zz\"]\n\n",
+BEFORE = ["", "[dependencies]\nserde = \"1\"\n\n", "[package]\nname = \"x\"\ndescription = \"Une d\u00e9mo\u00a0: appli\u3000ok\"\n# commentaire\u00a0: \u3000\u2003fin\n\n", "[package.metadata.other]\ndefault = \"zz\"\nlocales = [\"zz\"]\n\n",
           "[[bin]]\nname = \"x\"\npath = \"src/main.rs\"\n\n[features]\ndefault = []\n\n"]
 AFTER = ["", "\n[dependencies]\nserde = \"1\"\n", "\n[package.metadata.other]\nlocales = [\"zz\"]\ndefault = \"zz\"\n",
          "\n[features]\ndefault = [\"x\"]\nx = []\n\n[[bin]]\nname = \"x\"\npath = \"src/main.rs\"\n"]
